@@ -212,6 +212,22 @@ pub fn run(ctx: &Ctx) -> Report {
                             shapes.push((n, refmodel::hex_lower(&refmodel::hmac::hmac_sha256(&key, &v))));
                         }
                     }
+                    // presented "signatures" that are placeholders of common message-template syntaxes naming the things
+                    // a verifier handles (a message built by successive substitution would fill them in)
+                    let template_values: Vec<String> = {
+                        let mut v = Vec::new();
+                        for name in ["expected", "expected_signature", "computed", "signature", "secret", "secret_key", "key", "signing_key", "string_to_sign", "provided", "credential", "0", "1", ""] {
+                            for (open, close) in [("{", "}"), ("${", "}"), ("%(", ")s"), ("{{", "}}"), ("<", ">"), ("$", "")] {
+                                v.push(format!("{}{}{}", open, name, close));
+                            }
+                        }
+                        v.extend(["{}".to_string(), "{:?}".to_string(), "%s".to_string(), "%1$s".to_string(), "{expected}{provided}".to_string()]);
+                        v
+                    };
+                    let template_shapes: Vec<(String, String)> = template_values.iter().map(|t| (format!("sig-template-{}", t), t.clone())).collect();
+                    let mut all_shapes: Vec<(String, String)> = shapes.into_iter().map(|(a, b)| (a.to_string(), b)).collect();
+                    all_shapes.extend(template_shapes);
+                    let shapes = all_shapes;
                     for (sname, new) in shapes {
                         let mut c = valid.clone();
                         c.wire.uri = c.wire.uri.replace(&sig, &new);
@@ -508,7 +524,7 @@ pub fn run(ctx: &Ctx) -> Report {
     st.sample(0, 1, || json!({"observables": ["error Display/Debug", "key types Debug/Display", "provider request/response Debug", "CanonicalRequest/AuthParams/SigV4Authenticator Debug", "log records >= debug"], "needles_per_secret": n_needles / 3}));
     Report {
         stats: st,
-        rule: "3 secrets x 47 request classes (one per stage of the documented order on each carrier, valid, wrong signature, and presented signatures of 7 unusual shapes: truncated, empty, extended, doubled, upper-case, non-hex, and 7 signatures made with the right key over near-misses of the string to sign (a trailing newline / CR LF / blank / NUL, CR LF line ends, last character missing, lower-cased); and wrong signatures with request and server clock on different sides of a day, month, leap-day and year boundary) x 13 provider outcomes (key, wrong key, ExpiredToken, io error, private error type, a private error type whose message is harmless and whose derived Debug shows the key record it was handling; the key together with each of 7 identities — IAM user, assumed role, federated user, root, service, canonical user, user + role — from a store indexed by the access key alone, so also for requests without a session token); observables: the returned error's Display and Debug, the response Debug, Debug/Display (plain and alternate) of the five key types, GetSigningKeyRequest/Response, SigV4AuthenticatorResponse, CanonicalRequest, AuthParams, SigV4Authenticator, KeyTooLongError from five refused constructions (capacity one short, stray line ending, capacities 0/3/4/36, long input), and every log record at level >= Debug captured by the harness logger during validation and during key construction / refusal / derivation (Trace records counted, not searched); needles: secret, AWS4+secret, kDate, kRegion, kService, kSigning, each raw, hex, HEX, base64, base64url, as a decimal byte list and ascii-escaped, plus the correct signature of each refused request that did not present it (under the true key and under the key the provider handed out), searched in that request's observables and in those of every later validation of the run; finally 2^16 + 300 (thorough 2^20 + 300) requests with ever different wrong signatures are refused in one process and every error and record at Debug level or above of that run is searched for the correct signature. states = (class, provider, outcome)".into(),
+        rule: "3 secrets x 47 request classes (one per stage of the documented order on each carrier, valid, wrong signature, and presented signatures of 7 unusual shapes: truncated, empty, extended, doubled, upper-case, non-hex, and 7 signatures made with the right key over near-misses of the string to sign (a trailing newline / CR LF / blank / NUL, CR LF line ends, last character missing, lower-cased), and 89 placeholders of message-template syntaxes ({expected}, ${signature}, %(key)s, {{secret}}, <computed>, {}, %s, ...) presented as the signature; and wrong signatures with request and server clock on different sides of a day, month, leap-day and year boundary) x 13 provider outcomes (key, wrong key, ExpiredToken, io error, private error type, a private error type whose message is harmless and whose derived Debug shows the key record it was handling; the key together with each of 7 identities — IAM user, assumed role, federated user, root, service, canonical user, user + role — from a store indexed by the access key alone, so also for requests without a session token); observables: the returned error's Display and Debug, the response Debug, Debug/Display (plain and alternate) of the five key types, GetSigningKeyRequest/Response, SigV4AuthenticatorResponse, CanonicalRequest, AuthParams, SigV4Authenticator, KeyTooLongError from five refused constructions (capacity one short, stray line ending, capacities 0/3/4/36, long input), and every log record at level >= Debug captured by the harness logger during validation and during key construction / refusal / derivation (Trace records counted, not searched); needles: secret, AWS4+secret, kDate, kRegion, kService, kSigning, each raw, hex, HEX, base64, base64url, as a decimal byte list and ascii-escaped, plus the correct signature of each refused request that did not present it (under the true key and under the key the provider handed out), searched in that request's observables and in those of every later validation of the run; finally 2^16 + 300 (thorough 2^20 + 300) requests with ever different wrong signatures are refused in one process and every error and record at Debug level or above of that run is searched for the correct signature. states = (class, provider, outcome)".into(),
         bounds: json!({"secrets": 3, "classes": classes.len(), "provider_outcomes": 5}),
         exhaustive: true,
         assumptions: vec!["needles shorter than 16 bytes are not searched (accidental matches)".into()],
